@@ -18,13 +18,17 @@ CallFails(ts, c) ==
                      ELSE c.pop_raised = 0 /\ \A i \in 0..(ts.nind - 1) :
                             c.pops[i + 1] = (IF IndNodes(ts, i) = {} THEN NULL ELSE ts.pop[(CHOOSE u \in IndNodes(ts, i) : TRUE) + 1])}
     [] c.kind = "ts_props" ->
-         {cl \in {"max_root_time", "min_time", "max_time", "discrete_genome", "num_trees"} :
+         {cl \in {"max_root_time", "min_time", "max_time", "discrete_genome", "discrete_time", "num_trees"} :
             ~ CASE cl = "max_root_time" -> IF SamplesOf(ts) = {} THEN c.max_root_time = -1 ELSE c.max_root_time = MaxRootTime(ts)
                 [] cl = "min_time" -> c.min_time = MinTime(ts)
                 [] cl = "max_time" -> c.max_time = MaxTime(ts)
                 \* coordinates are the integers of the abstract tree sequence scaled by the coordinate map of the case
                 [] cl = "discrete_genome" -> (c.discrete_genome = 1) = (c.cmap \in {"id", "big"} \/ (c.cmap = "half" /\ \A x \in BPSet(ts) : x % 2 = 0)
                                                                           \/ (c.cmap = "third" /\ \A x \in BPSet(ts) : x % 3 = 0))
+                \* times are the abstract integers through the time map of the case plus an offset (integer or not); negative integers are discrete
+                [] cl = "discrete_time" -> (c.discrete_time = 1) = (c.toff_int = 1 /\
+                                               (c.tmap \in {"id", "big"} \/ (c.tmap = "half" /\ \A u \in NodesOf(ts) : TimeOf(ts, u) % 2 = 0)
+                                                                        \/ (c.tmap = "third" /\ \A u \in NodesOf(ts) : TimeOf(ts, u) % 3 = 0)))
                 [] cl = "num_trees" -> c.num_trees = NumTrees(ts)}
     [] c.kind = "samples" -> {cl \in {"samples_filter"} : c.result # SamplesFiltered(ts, c.pop, c.has_time = 1, c.t)}
 Fails(c) == UNION {{c.calls[i].kind \o ":" \o cl : cl \in CallFails(c.ts, c.calls[i])} : i \in 1..Len(c.calls)}
